@@ -1,10 +1,17 @@
-import FlatModel.Driver.Engine
+import FlatModel.Generated.Catalogue
 open FC
 partial def loop (h : IO.FS.Stream) (out : IO.FS.Stream) (env : Env) : IO Unit := do
   let line ← h.getLine
-  if line.isEmpty then return ()
-  let (env', o) := step env line
-  out.putStrLn o
-  loop h out env'
+  if line.isEmpty then
+    out.flush
+    return ()
+  let l := line.trimAscii.toString
+  if l.isEmpty || l.startsWith "#" then
+    out.putStrLn l
+    loop h out env
+  else
+    let (env', o) := step newBank env line
+    out.putStrLn o
+    loop h out env'
 def main : IO Unit := do
-  loop (← IO.getStdin) (← IO.getStdout) []
+  loop (← IO.getStdin) (← IO.getStdout) {}
